@@ -67,6 +67,10 @@ func runC05(l *core.Ledger) {
 	l.With(map[string]string{"C07-E3": "C05-M11"}, func() { c07E3(l, r) })
 	l.Rule("C05-M12", "only the stream reader, on its own read error, answers calls it has no request in hand for (C10-N6 re-run): any other site that fails every pending call of a node hands made-up errors to calls whose requests are on a healthy stream, removes their routers, and their real replies are dropped")
 	l.With(map[string]string{"C10-N6": "C05-M12"}, func() { c10N6(l, r) })
+	l.Rule("C05-M13", "a reply to a call that is still running is delivered, and a reply to one that has completed is discarded at once (C09-W3 D1-D3 re-run): a delivery waits for the receiving call for as long as that call runs and no longer - given up earlier, replies of a live call are lost (and an error is lost with its router); not given up when the call completes, the node's reader stays parked under the router lock and no reply of that node reaches anyone")
+	if bd := boundedDelivery(l, r); true {
+		l.Check(bd.ok, "C05-M13", "gorums.(responseRouter).deliver/bounded-by-completion", token.NoPos, "deliveries wait exactly as long as the owning call runs", "deliveries to routers that can get several replies are not bounded by the completion of the owning call: "+bd.why)
+	}
 	c05M5(l, r)
 	c05M6(l, r, eps)
 	checkResponseProvenance(l, r, "C05-M7")
